@@ -142,11 +142,11 @@ def check_threaded(case, counters, sets):
             g = case['gaps'][x % len(case['gaps'])]
             if g:
                 time.sleep(g / 1000.0)
-    t_last, n_last, t0 = time.time(), len(got), time.time()
-    while time.time() - t_last < 0.4 and time.time() - t0 < 10:
+    # the verdict is on what the node settles at: wait for the newest element (bounded), not for a fixed quiet period
+    t0 = time.time()
+    while not (got and got[-1] == n - 1) and time.time() - t0 < 8:
         time.sleep(0.02)
-        if len(got) != n_last:
-            n_last, t_last = len(got), time.time()
+    time.sleep(0.05)
     sk.destroy()
     viols = []
     counters['threaded_runs'] = counters.get('threaded_runs', 0) + 1
@@ -154,7 +154,7 @@ def check_threaded(case, counters, sets):
         viols.append({'key': 'C14:not-a-subsequence@latest-fed-from-another-thread', 'what': 'sent 0..%d, delivered %s' % (n - 1, got), 'case': case})
     elif not got or got[-1] != n - 1:
         viols.append({'key': 'C14:lost-final-element@latest-fed-from-another-thread',
-                      'what': 'sent 0..%d from the caller thread, input stopped, consumer free for 0.4 s: delivered %s' % (n - 1, got), 'case': case})
+                      'what': 'sent 0..%d from the caller thread, input stopped, 8 s later: delivered %s' % (n - 1, got), 'case': case})
     return viols
 
 
